@@ -86,7 +86,8 @@ def all_seqs(m):
 def candidates(m, allowed):
     """Operations applicable to a dataset with model `m` (documented preconditions)."""
     out = []
-    hr, un = m.has_raise or m.iter_taint, m.unordered
+    from . import refmodel
+    hr, un = m.has_raise or m.iter_taint, m.unordered and refmodel.STRICT_UNORDERED[0]
 
     def add(op, cond=True, weight=1):
         if op in allowed and cond:
